@@ -598,7 +598,11 @@ def r13_11(rep, prog):
             clamp = any(sx.kind(y) == 'cond' for y in sx.walk(arg)) or any(sx.kind(y) == 'call' and sx.callee_name(y) in ('fminf', 'fmaxf', 'fmin', 'fmax') for y in sx.walk(arg))
             inst = '%s:%s saturates the float sample before converting it to 32-bit PCM' % (prog.config, f.name)
             where = '%s:%s' % (f.file, sx.line(c))
-            if clamp:
+            big = [float(y[1]) for y in sx.walk(arg) if sx.kind(y) == 'flt' and abs(float(y[1])) >= 2147483000.0]
+            if clamp and any(v >= 2147483648.0 for v in big):
+                rep.violated('R13.11', inst, where, 'the upper clamp constant is %.1f as a float, i.e. 2^31 itself: float2int() of it is still out of range (INT32_MIN) - the largest float below 2^31 is 2147483520' % max(big),
+                             key='%s:float2int-bound' % f.name)
+            elif clamp:
                 rep.holds('R13.11', inst, where, '`%s`' % sx.show(c)[:80])
             else:
                 rep.violated('R13.11', inst, where, '`%s` converts an unbounded float: beyond +-256 x full scale (decoder gain, de-mixing) the result is INT32_MIN whatever the sign' % sx.show(c)[:80],
